@@ -24,6 +24,7 @@ from typing import Any, Dict, List, Optional, Sequence, Tuple
 from ..absint import AExc, AObj, APath, Raised, _BoundMethod, call_fn, ctor_hook, module_call_hook, path_hook
 from ..core import AnalysisError, ClassInfo, Ctx, dotted, norm
 from ..fold import Abstract, Folder, Unfoldable, call_value
+from .. import fold as _fold_mod
 from ..peg import Grammar
 from ..pegrun import Matcher, ParseFailure, PNode
 
@@ -420,6 +421,11 @@ class FrontEnd:
         handler (a recording print handler is passed), cwd; answers with plain values (no instances)"""
         from ..absint import Recorder
 
+        if not j.get("_continued"):
+            _fold_mod.PROCESS_STATE.clear()  # every job is a process of its own ...
+        for earlier in j.get("history", []):
+            # ... in which earlier calls may have been made: their outcome is not looked at, what they leave behind is there
+            self.job(dict(earlier, _continued=True))
         self.deep = bool(j.get("deep"))
         h = Recorder("print") if j.get("handler") else None
         if j.get("handler") == "falsy":
